@@ -434,7 +434,6 @@ type runner struct {
 	scope *slip.Scope
 	seen  map[string]bool
 	nread int
-	whole [2]bool // the uncut stream delivery already differs (EOF after / with the last piece)
 }
 
 func (m *runner) fail(sig, format string, a ...any) {
@@ -496,12 +495,6 @@ func exec(x *fw.Ctx, c Case) {
 	}
 
 	// monitor 2: delivery independence
-	if c.Dirty == "bcom-bar-bar-hash" {
-		// the comment really ends somewhere else than the harness's segments say:
-		// cut states cannot be named for this text
-		x.Cover("deliveries-skipped:segments-unreliable")
-		return
-	}
 	single := m.deliveries(base, states)
 	if clean && agrees {
 		m.clFuncs(base)
@@ -685,8 +678,6 @@ func (m *runner) clFuncs(base outcome) {
 		switch {
 		case err == nil && show(res, true) == base.vals[0]:
 			x.Cover("cl-read:" + kind + ":agrees")
-		case kind == "seekable" && m.whole[0]:
-			x.Cover("cl-read:seekable:differs-explained-by-uncut-stream-delivery")
 		case err != nil:
 			m.fail(sig+" got=error", "(read <%s stream on %q>): %s, ReadString gave %s", kind, T, err, base.vals[0])
 		case show(res, true) != base.vals[0]:
@@ -705,7 +696,6 @@ func (m *runner) deliveries(base outcome, states []cutInfo) []bool {
 	n := len(T)
 	rng := rand.New(rand.NewPCG(fw.Hash64([]byte(T)), 0xC02))
 	single := make([]bool, n+1)
-	singleM := [2][]bool{make([]bool, n+1), make([]bool, n+1)}
 
 	// whole text in one piece, both EOF conventions, and with empty reads
 	atEnd := "after-" + endKind(&c.Segs[len(c.Segs)-1])
@@ -713,7 +703,6 @@ func (m *runner) deliveries(base outcome, states []cutInfo) []bool {
 		o := rdStream(m.scope, newPieces(T, nil, mode))
 		m.nread++
 		if !same(base, o) {
-			m.whole[mode&mEOFLast] = true
 			m.fail("delivery=stream cuts=none end-of-text="+atEnd, "%q in one piece (%s): ReadString %s, ReadStream %s", T, modeName(mode), base, o)
 		} else {
 			x.Cover("whole-stream:agrees")
@@ -723,38 +712,19 @@ func (m *runner) deliveries(base outcome, states []cutInfo) []bool {
 	for k := 1; k < n; k++ {
 		st := states[k].state
 		x.Cover("cut:" + st)
-		judged := false
 		for _, mode := range []int{0, mEOFLast} {
-			if m.whole[mode] {
-				// this text is misread even uncut under this EOF convention (reported above)
-				x.Cover("cut-not-judged:uncut-delivery-already-differs")
-				continue
-			}
-			judged = true
 			o := rdStream(m.scope, newPieces(T, []int{k}, mode))
 			m.nread++
 			if same(base, o) {
 				continue
 			}
 			single[k] = true
-			singleM[mode][k] = true
 			m.fail("delivery=stream cut="+st, "%q delivered as %q + %q (%s): ReadString %s, ReadStream %s",
 				T, T[:k], T[k:], modeName(mode), base, o)
 		}
-		if judged && !single[k] {
+		if !single[k] {
 			x.Cover("cut-agrees:" + st)
 		}
-	}
-	explained := func(cuts []int, mode int) bool {
-		if m.whole[mode&mEOFLast] {
-			return true
-		}
-		for _, k := range cuts {
-			if singleM[mode&mEOFLast][k] {
-				return true
-			}
-		}
-		return false
 	}
 	multi := func(cuts []int, mode int, what string) {
 		o := rdStream(m.scope, newPieces(T, cuts, mode))
@@ -762,10 +732,8 @@ func (m *runner) deliveries(base outcome, states []cutInfo) []bool {
 		switch {
 		case same(base, o):
 			x.Cover(what + ":agrees")
-		case explained(cuts, mode):
-			x.Cover(what + ":differs-explained-by-a-failing-single-cut")
 		default:
-			m.fail("delivery=stream cuts=several", "%q cut at %v (every one of these cuts alone is read correctly): ReadString %s, ReadStream %s", T, cuts, base, o)
+			m.fail("delivery=stream cuts="+what, "%q cut at %v (%s): ReadString %s, ReadStream %s", T, cuts, modeName(mode), base, o)
 		}
 	}
 	// every fixed chunk size
@@ -868,18 +836,14 @@ func (m *runner) deliveries(base outcome, states []cutInfo) []bool {
 			x.Cover("each:agrees-with-stream")
 		}
 		// one form from a stream: same object and position as ReadOne
-		if base.err == nil && 0 < len(base.vals) && !explained(cuts, mode) {
+		if base.err == nil && 0 < len(base.vals) {
 			one := rdOne(m.scope, T)
 			so := rdStreamOne(m.scope, newPieces(T, cuts, mode))
 			m.nread += 2
-			// a cut inside the first form makes ReadStream continue in the next block; only compare
-			// when the first block holds the first form and at least one byte more
-			if len(cuts) == 0 || (0 < len(c.Forms) && c.Forms[0].E < cuts[0]) {
-				if !same(one, so) || (one.err == nil && one.pos != so.pos) {
-					m.fail("delivery=stream-one differs-from=readone", "%q cut at %v: ReadOne %s pos %d, ReadStream(one) %s pos %d", T, cuts, one, one.pos, so, so.pos)
-				} else {
-					x.Cover("stream-one:agrees-with-readone")
-				}
+			if !same(one, so) || (one.err == nil && one.pos != so.pos) {
+				m.fail("delivery=stream-one differs-from=readone", "%q cut at %v: ReadOne %s pos %d, ReadStream(one) %s pos %d", T, cuts, one, one.pos, so, so.pos)
+			} else {
+				x.Cover("stream-one:agrees-with-readone")
 			}
 		}
 	}
@@ -900,8 +864,6 @@ func (m *runner) deliveries(base outcome, states []cutInfo) []bool {
 		switch {
 		case same(ref, o):
 			x.Cover("natural-block:agrees")
-		case singleM[0][k] || m.whole[0]:
-			x.Cover("natural-block:differs-explained-by-a-failing-single-cut")
 		default:
 			m.fail("delivery=natural-block cut="+st, "%d bytes of padding + %q, block boundary before %q: ReadString gives %d objects ending %s, ReadStream %d objects ending %s",
 				len(pad), T, T[k:], len(ref.vals), tail(ref), len(o.vals), tail(o))
@@ -1037,8 +999,8 @@ func init() {
 			"the first 420 cases are the same for every seed. Per case: ReadString vs expectation; ReadOne and read-from-string object+position per form; " +
 			"cl:read (seekable and byte-wise stream); ReadStream for EVERY single cut position under both EOF conventions, every fixed chunk size, " +
 			"every pair of cuts of short texts, 200 random multi-cuts, empty reads, slip.InputStream wrapper, push/each/one-form variants, padding to the natural 64 KiB block boundary; every proper prefix (truncation). " +
-			"About 12% of cases hold exactly one construct of the avoid set (dirty stream: quote-like prefix before a non-symbol atom, (a . nil), #* at end of text, " +
-			".5 floats, ||# comment end, 10. under a non-decimal base); the clean stream avoids them and the constructs slip rejects loudly in every delivery (see meta note). Distinct = distinct case JSON; non-trivial = text of >= 3 bytes",
+			"About 12% of cases hold exactly one construct of the avoid set (dirty stream: quote-like prefix before a non-symbol atom, .5 floats, " +
+			"10. under a non-decimal base); the clean stream avoids them and the constructs slip rejects loudly in every delivery (see meta note). Distinct = distinct case JSON; non-trivial = text of >= 3 bytes",
 		N:     nCases,
 		Gen:   gen,
 		Exec:  exec,
@@ -1046,7 +1008,6 @@ func init() {
 		Assumptions: []string{
 			"the generator's token classifier (CL token syntax + slip's documented extensions) is the independent expectation for bare tokens",
 			"slip keeps the case of symbol names (dialect); float literals have <= 6 significant digits so rounding is not in play",
-			"a multi-cut delivery that fails is attributed to a failing single cut when one of its cuts fails alone",
 		},
 	})
 }
